@@ -14,7 +14,7 @@ func init() {
 		NotDecided: "decode(encode(x)) = x for all x; the packfile varint header arithmetic.",
 	}
 	props["C07"] = &propSpec{
-		Rules:      []string{"C07-a", "C07-b", "C07-c", "C07-d", "C07-f", "C06-a", "C13-a", "C13-h", "C17-f", "C17-g"},
+		Rules:      []string{"C07-a", "C07-b", "C07-c", "C07-d", "C07-f", "C06-a", "C13-a", "C13-h", "C17-f", "C17-g", "C09-h", "C09-i"},
 		Decides:    "Decides the receiver's validation/ordering mechanisms and the sender's queue order on every path: received blocks are stored only after ValidateBlockBytes succeeded on the same buffer and under the hash of the decompressed bytes; a commit is stored only after every parent was found; rebuilt block-index sums are compared with the table's recorded sums before the table index is written; the sender appends blocks before their table and the commit after its table. Does not decide byte identity of the two stores or packfile splitting. Also decided: the sender passes the enqueue-next-commit step before leaving WriteObjects; the receiver writes the table object last and never skips its index.",
 		NotDecided: "byte identity of source and destination stores; packfile splitting arithmetic.",
 	}
@@ -29,7 +29,7 @@ func init() {
 		NotDecided: "that IsAncestorOf answers correctly (C11); merge's fast-forward condition (control-dependent on SeekCommonAncestor); pull's new-branch detection; the remote side of push.",
 	}
 	props["C09"] = &propSpec{
-		Rules:      []string{"C09-a", "C09-b", "C09-c", "C09-e", "C09-f", "C09-g", "C10-c", "C08-c", "C17-f"},
+		Rules:      []string{"C09-a", "C09-b", "C09-c", "C09-e", "C09-f", "C09-g", "C10-c", "C08-c", "C17-f", "C09-h", "C09-i"},
 		Decides:    "Decides ordering/completion mechanisms: fetched refs are saved only on the success edge of the object fetch; the upload-pack session returns its terminal state only on Receive's done==true edge; a push session is created only after the shallow-commit check; refs are written only through pkg/ref's logging API. Does not decide completeness of the transferred history or idempotence. Also decided: tables are acknowledged only under TableExist; the receiver is given the freshly computed wants; every successful return of Fetch has saved the refs.",
 		NotDecided: "completeness of the transferred history, object identity on both sides, idempotence of a repeated fetch/push.",
 	}
